@@ -73,6 +73,33 @@ class Gen(Generic[TV], DataClassDictMixin):
     g: TV
     gs: List[TV] = field(default_factory=list)
 
+@dataclass
+class OptD(DataClassDictMixin):
+    due: Optional[datetime.date] = datetime.date(2000, 1, 1)
+    r: Optional[int] = 0
+    tags: Optional[List[str]] = field(default_factory=list)
+    s: Optional[str] = ""
+
+@dataclass
+class SelfRef(DataClassDictMixin):
+    v: datetime.date
+    b: bytes = b"x"
+    n: Optional[int] = None
+    nxt: Optional[Self] = None
+
+@dataclass
+class Lvl1(DataClassDictMixin):
+    a: int
+    p: int
+
+@dataclass
+class Lvl2(Lvl1):
+    p: int = 7
+
+@dataclass
+class Lvl3(Lvl2):
+    z: int = 0
+
 class SType(SerializableType):
     def __init__(self, v):
         self.v = v
@@ -101,7 +128,7 @@ LEAVES = [
     ("intflag", "IFlg", ()), ("lit", 'Literal["a", 2, True, None]', ()), ("litenum", "Literal[Color.RED, Num.TWO]", ()),
     ("newtype", "UserId", ()), ("nt", "NT", ()), ("td", "TDict", ()), ("tdnt", "TDictNT", ()),
     ("plain", "Plain", ()), ("mix", "Mix", ()), ("inh", "Inh", ()), ("gen_int", "Gen[int]", ()),
-    ("gen_date", "Gen[datetime.date]", ()),
+    ("gen_date", "Gen[datetime.date]", ()), ("optd", "OptD", ()), ("selfref", "SelfRef", ()), ("lvl3", "Lvl3", ()),
 ]
 # SerializableType leaf kept separate (oracle treats it by its own methods)
 CTORS = [
@@ -116,7 +143,8 @@ CTORS = [
     ("uni", "Union[int, {X}]", ("union",)), ("ann", "Annotated[{X}, 'meta']", ()),
     ("final", "Final[{X}]", ("fieldonly",)),
 ]
-UNHASHABLE = {"any", "nt", "td", "tdnt", "plain", "mix", "inh", "gen_int", "gen_date", "bytearray", "pattern", "none"}
+UNHASHABLE = {"any", "nt", "td", "tdnt", "plain", "mix", "inh", "gen_int", "gen_date", "bytearray", "pattern", "none", "optd",
+              "selfref", "lvl3"}
 # union with int: members whose wire form is int/bool/float/str-compatible are lossy
 UNION_LOSSY = {"int", "bool", "float", "any", "intenum", "intflag", "num", "newtype", "timedelta", "none", "lit",
                "flag", "litenum"}
